@@ -50,7 +50,7 @@ class C20(Check):
     thorough_examples = 10000
     chunk = 600
     rule = (
-        "[drawn in addition since rounds 13-15: replace indices counted from the back; notifications to patched methods judged; batch elements may be notifications] "
+        "[drawn in addition since rounds 13-15: replace indices counted from the back; notifications to patched methods judged; batch elements may be notifications; every history of length <= 4 (quick) / <= 6 (thorough) over {add, add once, call, notify, batch of call + notification, remove endpoint, remove method} on one pair, followed by a probing call, enumerated] "
         "cases: operation/call histories of up to 9 steps over 2 endpoints x 3 methods (one never patched): add(result | error | callback | callback that raises, patches carrying an id of their own, "
         "once on/off), replace(existing index, counted from the front or - negative - from the back), remove(endpoint, method) / remove(endpoint) (existing only), reset, call (positional / named / "
         "absent params, ids incl. 0 and '' via hand-built request texts), batch call (1..3 elements incl. unpatched methods), notifications to endpoints without patches, plus structured scenarios (2..3 patches on one pair, a replace at a chosen index, then a full rotation of calls; two methods patched on one endpoint of which one is used up or removed); passthrough "
